@@ -36,6 +36,10 @@ pub struct Case {
     pub threads: Vec<(u8, NameG)>,
     pub cue_exiters: bool,
     pub auxv: AuxvPlan,
+    /// threads (bit i = i-th thread of the target, bit 0 = main) that another tracer - the harness - holds
+    /// while the dump is taken, so that attaching to them fails; 0xffff = all of them
+    #[serde(default)]
+    pub seized: u16,
 }
 
 /// Flattens the soft-error JSON into a multiset of path tags.
@@ -170,6 +174,16 @@ pub fn check(c: &Case) -> Verdict {
             }
         }
     });
+    // threads held by a foreign tracer (PTRACE_SEIZE does not stop them): attach must fail softly
+    let mut seized: Vec<i32> = vec![];
+    for (i, (tid, _)) in all_tids.iter().enumerate() {
+        if (c.seized == 0xffff || (i < 16 && c.seized & (1 << i) != 0)) && !exiters.iter().any(|(t, _)| t == tid) {
+            let r = unsafe { libc::ptrace(libc::PTRACE_SEIZE, *tid, 0, 0) };
+            if r == 0 {
+                seized.push(*tid);
+            }
+        }
+    }
     let mut w = make_writer(pid, &opts);
     let mut dest = Dest::new(vec![], 0);
     let out = with_failspots(c.failmask, || with_hook(hook, || run_dump(&mut w, &mut dest)));
@@ -250,6 +264,18 @@ pub fn check(c: &Case) -> Verdict {
         want.insert(format!("SuspendThreadsErrors/PtraceAttachError:{tid}"), 1);
         optional.push(format!("SuspendThreadsErrors/WaitPidError:{tid}"));
     }
+    for tid in &seized {
+        want.insert(format!("SuspendThreadsErrors/PtraceAttachError:{tid}"), 1);
+        // a null-SP helper that cannot even be attached is not "skipped"
+        want.remove(&format!("SuspendThreadsErrors/DetachSkippedThread:{tid}"));
+    }
+    {
+        // the step "suspend threads" leaves nothing when every thread is skipped, vanished or held by someone else
+        let left = all_tids.iter().filter(|(tid, k)| *k != K_NULLSP && !seized.contains(tid) && !exiters.iter().any(|(t, _)| t == tid)).count();
+        if left == 0 {
+            want.insert("SuspendNoThreadsLeft".into(), 1);
+        }
+    }
     for (k, n) in &want {
         let g = got.get(k).copied().unwrap_or(0);
         if g < *n {
@@ -310,6 +336,7 @@ pub fn check(c: &Case) -> Verdict {
     // everything else the two dumps record must be equal (normal form), apart from what the failed
     // steps own and what is volatile in this target
     let gone: Vec<i32> = exiters.iter().map(|(t, _)| *t).collect();
+    let omitted: Vec<i32> = gone.iter().chain(seized.iter()).copied().collect();
     {
         use crate::vcore::normal::*;
         let (mut na, mut nb) = (normal_form(&ref_img, &ref_d), normal_form(&img, &d));
@@ -324,7 +351,11 @@ pub fn check(c: &Case) -> Verdict {
                 n.raw.remove(&md::ST_LINUX_MAPS);
             }
             // only parked threads are bit-stable between two dumps: drop the others' volatile parts
-            let stable: Vec<u32> = all_tids.iter().filter(|(_, k)| *k == K_PARKED).map(|(t, _)| *t as u32).collect();
+            let stable: Vec<u32> = all_tids.iter().filter(|(t, k)| *k == K_PARKED && !seized.contains(t)).map(|(t, _)| *t as u32).collect();
+            if seized.contains(&pid) {
+                // the blamed (main) thread is not part of this dump: its exception context is not comparable
+                n.exception = None;
+            }
             let vol: Vec<(u64, usize)> = n.threads.iter().filter(|(tid, _)| !stable.contains(tid)).map(|(_, (s, b, _))| (*s, b.len())).collect();
             n.memory.retain(|(s, b)| !vol.contains(&(*s, b.len())));
             n.threads.retain(|tid, _| stable.contains(tid));
@@ -333,7 +364,7 @@ pub fn check(c: &Case) -> Verdict {
             bad!("stream-differs", "with fail points {:#x} the dump differs from the fault-free dump of the same target in {what}: {detail}", c.failmask);
         }
     }
-    let mut want_tids: Vec<u32> = all_tids.iter().filter(|(tid, k)| *k != K_NULLSP && !gone.contains(tid)).map(|(t, _)| *t as u32).collect();
+    let mut want_tids: Vec<u32> = all_tids.iter().filter(|(tid, k)| *k != K_NULLSP && !omitted.contains(tid)).map(|(t, _)| *t as u32).collect();
     want_tids.sort();
     let mut got_tids: Vec<u32> = d.threads.as_ref().map(|t| t.iter().map(|t| t.tid).collect()).unwrap_or_default();
     got_tids.sort();
@@ -343,7 +374,7 @@ pub fn check(c: &Case) -> Verdict {
     // thread names: none with the ThreadName fail point, else per comm
     let mut want_names: Vec<(u32, String)> = vec![];
     if c.failmask & FS_THREAD_NAME == 0 {
-        for (tid, _) in all_tids.iter().filter(|(tid, k)| *k != K_NULLSP && !gone.contains(tid)) {
+        for (tid, _) in all_tids.iter().filter(|(tid, k)| *k != K_NULLSP && !omitted.contains(tid)) {
             if let Some(n) = comms.get(tid).and_then(|c| expected_name(c)) {
                 want_names.push((*tid as u32, n));
             }
@@ -364,6 +395,9 @@ pub fn check(c: &Case) -> Verdict {
     }
     if !exiters.is_empty() {
         classes.push("natural:thread-exit-before-attach".into());
+    }
+    if !seized.is_empty() {
+        classes.push(if want.contains_key("SuspendNoThreadsLeft") { "natural:no-thread-attachable" } else { "natural:thread-held-by-foreign-tracer" }.into());
     }
     if matches!(c.auxv, AuxvPlan::BadPhdr | AuxvPlan::HugePhnum) {
         classes.push("natural:bad-linker-data".into());
@@ -404,7 +438,7 @@ fn enum_cases() -> impl Iterator<Item = Case> {
         (vec![(K_PARKED, NameG::Utf8("t".into())); 7], false, AuxvPlan::HugePhnum),
     ];
     (0u8..32).flat_map(move |m| {
-        shapes.clone().into_iter().map(move |(threads, cue, auxv)| Case { failmask: m, threads, cue_exiters: cue, auxv })
+        shapes.clone().into_iter().map(move |(threads, cue, auxv)| Case { failmask: m, threads, cue_exiters: cue, auxv, seized: 0 })
     })
 }
 
@@ -421,9 +455,9 @@ pub fn run(ctx: &mut LaneCtx) {
         SubSpec {
             name: "generated",
             cases: (480, 20_000),
-            rule: "generated targets (0..8 extra threads of kinds parked/sleeper/null-sp/exiter with unset/UTF-8/non-UTF-8 names) x fail-point subset x auxv plan x exiter cue; oracle = expected-error model equality + all other streams equal to the fault-free dump of the same target; non-trivial as above; distinct = hash of case",
-            strategy: (0u8..32, proptest::collection::vec(thread_strategy(), 0..9), any::<bool>(), prop_oneof![3 => Just(AuxvPlan::Kernel), 1 => Just(AuxvPlan::TrueDirect), 1 => Just(AuxvPlan::BadPhdr), 1 => Just(AuxvPlan::HugePhnum)])
-                .prop_map(|(failmask, threads, cue_exiters, auxv)| fix(Case { failmask, threads, cue_exiters, auxv }))
+            rule: "generated targets (0..8 extra threads of kinds parked/sleeper/null-sp/exiter with unset/UTF-8/non-UTF-8 names) x fail-point subset x auxv plan x exiter cue x a subset of threads (possibly all, possibly the main thread) held by a foreign tracer so that attaching to them fails; oracle = expected-error model equality + all other streams equal to the fault-free dump of the same target; non-trivial as above; distinct = hash of case",
+            strategy: (0u8..32, proptest::collection::vec(thread_strategy(), 0..9), any::<bool>(), prop_oneof![3 => Just(AuxvPlan::Kernel), 1 => Just(AuxvPlan::TrueDirect), 1 => Just(AuxvPlan::BadPhdr), 1 => Just(AuxvPlan::HugePhnum)], prop_oneof![5 => Just(0u16), 3 => any::<u16>().prop_map(|m| m & 0x1fe), 1 => any::<u16>(), 1 => Just(0xffffu16)])
+                .prop_map(|(failmask, threads, cue_exiters, auxv, seized)| fix(Case { failmask, threads, cue_exiters, auxv, seized }))
                 .boxed(),
             max_shrink_iters: 200,
             log_current: true,
